@@ -45,6 +45,28 @@ func H_C18_glue(v *zzverif.T) {
 	case "truncated":
 		content = []byte{0x3a, 0x10, 0x0a, 0x02}
 	}
+	if v.CStr("content") == "mutated" {
+		// a small well-formed message (ir_version, two opset imports - one with a domain -, an empty graph) with ONE
+		// byte replaced, at every position in turn: length prefixes that overrun their entry, wire types that do not
+		// fit their field, cut-short varints
+		valid := []byte{0x08, 0x07, 0x42, 0x02, 0x10, 0x0d, 0x42, 0x0e, 0x0a, 0x0a, 'a', 'i', '.', 'o', 'n', 'n', 'x', '.', 'm', 'l', 0x10, 0x02, 0x3a, 0x00}
+		repl := byte(v.CInt("byte"))
+		for pos := range valid {
+			if pos != v.CInt("pos") {
+				continue // one position per case (the decoder's answer is a branch point of its own)
+			}
+			content := append([]byte(nil), valid...)
+			content[pos] = repl
+			var m *Model
+			var err error
+			panicked := v.Try(func() { m, err = NewModelFromBytes(content) })
+			v.Assert("C18.loading-never-panics", !panicked)
+			if !panicked {
+				v.Assert("C18.model-or-error", (m == nil) == (err != nil))
+			}
+		}
+		return
+	}
 	var m *Model
 	var err error
 	panicked := v.Try(func() {
@@ -128,6 +150,11 @@ func H_C18_newmodel(v *zzverif.T) {
 					v.Assume(tp.DataType == 1 || tp.DataType == 7 || tp.DataType == 10 || tp.DataType == 0 || tp.DataType == 8)
 				}
 				tp.FloatData = zzverif.Syms[float32](v, fmt.Sprintf("f%d_", i), n)
+				if i == 1 && v.Has("bothraw") {
+					// BOTH encodings present: the typed field is the one that counts, whatever raw_data would say
+					v.Assume(tp.DataType == 1)
+					tp.RawData = zzverif.Syms[byte](v, "raw", v.CInt("bothraw"))
+				}
 				// FLOAT reads float_data; INT64 finds no int64_data and falls back to (empty) raw data;
 				// the other codes are not representable (float_data populated: known C12 fallback)
 				switch {
